@@ -90,7 +90,7 @@ def register(w):
         c.bounded_only = True
         c.param("state_node", Node).returns(BOOL)
         c.req("state_node != None")
-        c.ens(f"implies(legal({A}), result == spec_done(state_node, {A}))", label="done-as-stated")
+        c.ens(f"implies(legal({A}), result == spec_done(state_node, {A}))", label="rt:done-as-stated")
 
 
 def register_guards(w):
